@@ -769,7 +769,10 @@ function constSortKey(value: Const): string {
 }
 
 function compareConst(a: Const, b: Const): number {
-  return constSortKey(a).localeCompare(constSortKey(b));
+  // code unit order: localeCompare depends on the host's locale and ties canonically equivalent strings
+  const x = constSortKey(a);
+  const y = constSortKey(b);
+  return x < y ? -1 : x > y ? 1 : 0;
 }
 
 function hash256Const(ctx: Hash256Context, value: Const): void {
